@@ -1,1 +1,225 @@
 // Kani contract harnesses for /repo/arrow-buffer/src/util/bit_mask.rs (child module: sees private items via super::)
+//
+// Specification side (C19): bit(s, i) = (s[i/8] >> (i%8)) & 1 (spec::bit). The number of zero bits
+// of a range is specified on the integer view of the bit sequence: the little-endian integer
+// W(s) = sum s[k] * 256^k has bit i equal to bit(s, i), so
+// zeros_in(s, from, n) = n - popcount((W(s) >> from) mod 2^n).
+use super::*;
+#[path = "/verif/kani/support/spec.rs"]
+mod spec;
+use spec::*;
+
+/// The 24-byte buffer as three little-endian 64-bit words (the integer view, 64 bits at a time).
+fn words(s: &[u8; N]) -> [u64; 3] {
+    [
+        u64::from_le_bytes([s[0], s[1], s[2], s[3], s[4], s[5], s[6], s[7]]),
+        u64::from_le_bytes([s[8], s[9], s[10], s[11], s[12], s[13], s[14], s[15]]),
+        u64::from_le_bytes([s[16], s[17], s[18], s[19], s[20], s[21], s[22], s[23]]),
+    ]
+}
+
+/// mask of the positions of word k (bits [64k, 64k+64)) that lie in [from, from+n)
+fn range_mask(k: usize, from: usize, n: usize) -> u64 {
+    let (b0, b1) = (64 * k, 64 * k + 64);
+    let lo = if from < b0 { b0 } else if from > b1 { b1 } else { from } - b0;
+    let end = from + n;
+    let hi = if end < b0 { b0 } else if end > b1 { b1 } else { end } - b0;
+    if lo >= hi {
+        0
+    } else {
+        let upto_hi = if hi == 64 { u64::MAX } else { (1u64 << hi) - 1 };
+        upto_hi & !((1u64 << lo) - 1)
+    }
+}
+
+/// "forall i in [from, from+n): !bit(s, i)" on the integer view (loop-free)
+fn range_is_zero(s: &[u8; N], from: usize, n: usize) -> bool {
+    let w = words(s);
+    w[0] & range_mask(0, from, n) == 0 && w[1] & range_mask(1, from, n) == 0 && w[2] & range_mask(2, from, n) == 0
+}
+
+/// The 64-bit little-endian window of `s` that starts at byte `b0` (bytes past the end read as 0).
+fn window(s: &[u8; N], b0: usize) -> u64 {
+    let g = |k: usize| if b0 + k < N { s[b0 + k] } else { 0 };
+    u64::from_le_bytes([g(0), g(1), g(2), g(3), g(4), g(5), g(6), g(7)])
+}
+
+/// zeros_in(s, from, n) for a range that lies inside the 8-byte window starting at byte from/8
+/// (from%8 + n <= 64): r is the number of zero bits among bits [from, from+n) of s. Written on the
+/// integer view of that window in both equivalent forms (count the zeros / subtract the ones).
+fn is_zeros_in(r: usize, s: &[u8; N], from: usize, n: usize) -> bool {
+    let w = window(s, from / 8);
+    let sh = from % 8;
+    let m = (if n >= 64 { u64::MAX } else { (1u64 << n) - 1 }) << sh;
+    r == (!w & m).count_ones() as usize || r == n - (w & m).count_ones() as usize
+}
+
+const N: usize = 24;
+
+// Contract (C19) of `unsafe fn set_upto_64bits(write_data, data, offset_write, offset_read, len)`,
+// textually parallel to the `[[extract]] fn = "set_upto_64bits"` block of
+// /verif/design_probes/set_bits.spec.toml (this unit DISCHARGES the contract that the Verus proof
+// of `set_bits` assumes for its callee), r = the returned pair (zero count, bits set):
+//   requires  len >= 1,
+//             offset_write + len <= write_data.len() * 8,
+//             offset_read + len <= data.len() * 8,
+//             forall i in [offset_write, offset_write+len): !bit(old(write_data), i)
+//   ensures   1 <= r.1 <= len,
+//             r.1 == len || r.1 >= 56,
+//             r.0 <= r.1,
+//             r.0 == zeros_in(data, offset_read, r.1),                                             (*)
+//             forall i in [offset_write, offset_write+r.1): bit(write_data, i) == bit(data, offset_read + (i - offset_write)),
+//             forall i in [offset_write+r.1, offset_write+len): !bit(write_data, i),
+//             forall i in [0, 8*write_data.len()) outside [offset_write, offset_write+len): bit(write_data, i) == bit(old(write_data), i)
+// plus memory safety of the unchecked reads/writes (Kani's pointer checks) under `requires`.
+// (*) The count clause is discharged on the DESTINATION side: the harness asserts
+//     (in the companion unit `set_upto_64bits_count`, same requires, solved with kissat)
+//     r.1 + offset_write%8 <= 64 and r.0 == zeros_in(write_data', offset_write, r.1), and the
+//     position-wise clause on the next line makes the two ranges equal bit for bit, hence
+//     zeros_in(write_data', offset_write, r.1) == zeros_in(data, offset_read, r.1) (equal sequences
+//     have equal counts - a hand lemma, listed in REPORT.md). Measured reason: asserting the count on
+//     the source side asks the SAT solver for popcount(x) == popcount(x shifted by a symbolic
+//     amount), which did not finish in 25 min with either CaDiCaL or kissat (machine under 5x load).
+// Checked for EVERY offset_write, offset_read, len and all contents of two 24-byte buffers (the
+// function is loop-free except a copy loop bounded by 8 and addresses at most 9 bytes of each
+// buffer, so 24 bytes leave room before and after the 8-byte window at every sub-byte offset).
+// @unit name=set_upto_64bits_contract props=C19 kind=complete fns=set_upto_64bits,read_bytes_to_u64,write_u64_bytes,or_write_u64_bytes timeout=600
+#[kani::proof]
+#[kani::unwind(10)]
+fn set_upto_64bits_contract() {
+    let mut write_data: [u8; N] = kani::any();
+    let data: [u8; N] = kani::any();
+    let offset_write: usize = kani::any();
+    let offset_read: usize = kani::any();
+    let len: usize = kani::any();
+    // requires
+    kani::assume(len >= 1);
+    kani::assume(offset_write <= N * 8 && len <= N * 8 - offset_write);
+    kani::assume(offset_read <= N * 8 && len <= N * 8 - offset_read);
+    kani::assume(range_is_zero(&write_data, offset_write, len));
+    let old = write_data;
+    let r = unsafe { set_upto_64bits(&mut write_data, &data, offset_write, offset_read, len) };
+    // ensures
+    assert!(1 <= r.1 && r.1 <= len);
+    assert!(r.1 == len || r.1 >= 56);
+    assert!(r.0 <= r.1);
+    // r.0 == zeros_in(..): see set_upto_64bits_count
+    let i: usize = kani::any();
+    kani::assume(i < N * 8);
+    if offset_write <= i && i < offset_write + r.1 {
+        assert!(bit(&write_data, i) == bit(&data, offset_read + (i - offset_write)));
+    } else if offset_write + r.1 <= i && i < offset_write + len {
+        assert!(!bit(&write_data, i));
+    } else {
+        assert!(bit(&write_data, i) == bit(&old, i));
+    }
+    // one cover per branch of the function and of the contract
+    kani::cover!(len >= 64 && offset_read % 8 == 0 && offset_write % 8 == 0 && r.1 == 64);
+    kani::cover!(len >= 64 && offset_read % 8 == 0 && offset_write % 8 == 3 && r.1 == 61);
+    kani::cover!(len >= 64 && offset_read % 8 == 5 && offset_write % 8 == 0 && r.1 == 56);
+    kani::cover!(len >= 64 && offset_read % 8 == 5 && offset_write % 8 == 2 && r.1 == 59);
+    kani::cover!(len == 1 && r.0 == 1);
+    kani::cover!(len == 63 && offset_read % 8 == 7 && r.1 == 57 && r.0 == 20);
+    kani::cover!(len == 168 && !(offset_write <= i && i < offset_write + len) && bit(&old, i));
+}
+
+// Contract (C19), count clause (*) of set_upto_64bits (see set_upto_64bits_contract for the full
+// text): under the same `requires`, r.1 + offset_write%8 <= 64 (the written range lies inside the
+// 8-byte window that starts at byte offset_write/8) and r.0 == the number of zero bits among bits
+// [offset_write, offset_write + r.1) of write_data AFTER the call. EVERY offset_write, offset_read,
+// len and all contents of two 24-byte buffers. Solver: kissat (CaDiCaL did not finish).
+// Measured 840 s under 5x machine load.
+// @unit name=set_upto_64bits_count props=C19 kind=complete fns=set_upto_64bits tier=thorough timeout=3000
+#[kani::proof]
+#[kani::unwind(10)]
+#[kani::solver(kissat)]
+fn set_upto_64bits_count() {
+    let mut write_data: [u8; N] = kani::any();
+    let data: [u8; N] = kani::any();
+    let offset_write: usize = kani::any();
+    let offset_read: usize = kani::any();
+    let len: usize = kani::any();
+    kani::assume(len >= 1);
+    kani::assume(offset_write <= N * 8 && len <= N * 8 - offset_write);
+    kani::assume(offset_read <= N * 8 && len <= N * 8 - offset_read);
+    kani::assume(range_is_zero(&write_data, offset_write, len));
+    let r = unsafe { set_upto_64bits(&mut write_data, &data, offset_write, offset_read, len) };
+    assert!(r.1 + offset_write % 8 <= 64);
+    assert!(is_zeros_in(r.0, &write_data, offset_write, r.1));
+    kani::cover!(len >= 64 && offset_read % 8 == 5 && offset_write % 8 == 2 && r.0 == 30);
+    kani::cover!(len == 1 && r.0 == 1);
+}
+
+// Contract (C19) of `set_bits(write_data, data, offset_write, offset_read, len)`, the Kani PAIR of
+// the Verus proof (same text as the `[[extract]] fn = "set_bits"` block of set_bits.spec.toml):
+//   requires  offset_write + len <= write_data.len() * 8, offset_read + len <= data.len() * 8,
+//             forall i in [offset_write, offset_write+len): !bit(old(write_data), i)
+//   ensures   r == zeros_in(data, offset_read, len),
+//             forall i in [offset_write, offset_write+len): bit(write_data, i) == bit(data, offset_read + (i - offset_write)),
+//             forall i outside the range: bit(write_data, i) == bit(old(write_data), i)
+// and the call does not panic. Bounded: two 9-byte buffers, EVERY offset_write, offset_read, len
+// and all contents (so up to two rounds of the 64-bit loop). Its job is to produce a concrete
+// counterexample when the unbounded Verus obligation fails.
+// NOT CONFIRMED under load (a 10-byte version did not finish in 20 min at 5x machine load): thorough tier.
+// @unit name=set_bits_pair props=C19 kind=bounded bound=buffers=9_bytes_all_offsets_and_lengths fns=set_bits,set_upto_64bits tier=thorough timeout=3000 mem=4
+#[kani::proof]
+#[kani::unwind(10)]
+#[kani::stub(alloc::fmt::format, stub_format)]
+fn set_bits_pair() {
+    const M: usize = 9;
+    let mut write_data: [u8; M] = kani::any();
+    let data: [u8; M] = kani::any();
+    let offset_write: usize = kani::any();
+    let offset_read: usize = kani::any();
+    let len: usize = kani::any();
+    kani::assume(offset_write <= M * 8 && len <= M * 8 - offset_write);
+    kani::assume(offset_read <= M * 8 && len <= M * 8 - offset_read);
+    // requires: the destination range is zero (constructed on the integer view, loop-free)
+    let mut wa = [0u8; 16];
+    wa[..M].copy_from_slice(&write_data);
+    let cleared = u128::from_le_bytes(wa) & !(((1u128 << len) - 1) << offset_write);
+    write_data.copy_from_slice(&cleared.to_le_bytes()[..M]);
+    let old = write_data;
+    let r = set_bits(&mut write_data, &data, offset_write, offset_read, len);
+    // zeros_in on the integer view of the whole 9-byte source
+    let mut a = [0u8; 16];
+    a[..M].copy_from_slice(&data);
+    let w = (u128::from_le_bytes(a) >> offset_read) & ((1u128 << len) - 1);
+    assert!(r == len - w.count_ones() as usize);
+    let i: usize = kani::any();
+    kani::assume(i < M * 8);
+    if offset_write <= i && i < offset_write + len {
+        assert!(bit(&write_data, i) == bit(&data, offset_read + (i - offset_write)));
+    } else {
+        assert!(bit(&write_data, i) == bit(&old, i));
+    }
+    kani::cover!(len == 0);
+    kani::cover!(len == 72 && r == 33);
+    kani::cover!(len == 65 && offset_read == 7 && offset_write == 3 && i == 68 && bit(&old, i));
+    kani::cover!(len == 1 && offset_write == 71 && offset_read == 0 && r == 0);
+}
+
+// Contract (C19): set_bits panics (rejects) whenever offset_write + len exceeds 8*len(write_data)
+// or offset_read + len exceeds 8*len(data) (the documented panics, including usize overflow of the
+// sums) - it never reaches the unchecked writes with an out-of-range request: if the call
+// returns, both ranges fit. EVERY usize offset and length, 4-byte buffers.
+// @unit name=set_bits_rejects props=C19 kind=complete fns=set_bits mayreject=1 timeout=600
+#[kani::proof]
+#[kani::unwind(10)]
+#[kani::stub(alloc::fmt::format, stub_format)]
+fn set_bits_rejects() {
+    let mut write_data: [u8; 4] = [0; 4];
+    let data: [u8; 4] = kani::any();
+    let nw: usize = kani::any();
+    let nr: usize = kani::any();
+    kani::assume(nw <= 4 && nr <= 4);
+    let offset_write: usize = kani::any();
+    let offset_read: usize = kani::any();
+    let len: usize = kani::any();
+    set_bits(&mut write_data[..nw], &data[..nr], offset_write, offset_read, len);
+    assert!(offset_write <= 8 * nw && len <= 8 * nw - offset_write);
+    assert!(offset_read <= 8 * nr && len <= 8 * nr - offset_read);
+    kani::cover!(len == 32);
+    kani::cover!(len == 0 && offset_write == 8 * nw && nw == 3);
+}
+
